@@ -16,7 +16,8 @@
      dim         -  or  w,k,r0,c0,r1,c1,hextail
      pre2        elements separated by ";":  R:raw   or   B:raw/raw~raw~.../w,k,hex
      begin, end  w,k,hex
-     items       ";"-separated:  w,k,R,row,hextail | w,k,C,col,style,fl,val,hextail | w,k,O,id,hex
+     items       ";"-separated:  w,k,R,row,hextail | w,k,C,col,style,fl,val,hextail |
+                 w,k,S,style,fl,val,hextail (a short cell record) | w,k,O,id,hex
      val         blank | rk:i:v:x | rk:f:hi:x | err:n | bool:b | real:bits | st:hex | isst:i |
                  fst:hex | fnum:bits | fbool:b | ferr:n
    The Section variable of the Coq model is instantiated here (trusted glue):
@@ -147,6 +148,8 @@ let item_of_str (s : string) : frm * item =
   | [w; k; "R"; row; tl] -> (frm_of w k, IRow (n_of_string row, hexarg tl))
   | [w; k; "C"; col; st; fl; v; tl] ->
     (frm_of w k, ICell (n_of_string col, n_of_string st, n_of_string fl, cval_of_str v, hexarg tl))
+  | [w; k; "S"; st; fl; v; tl] ->
+    (frm_of w k, IShort (n_of_string st, n_of_string fl, cval_of_str v, hexarg tl))
   | [w; k; "O"; id; hx] -> (frm_of w k, IOther (n_of_string id, hexarg hx))
   | _ -> failwith ("bad item " ^ s)
 let hrec_of_str (s : string) : hrec =
